@@ -44,6 +44,15 @@ CLAIMS = {
         design="8.C01"),
 }
 
+CLAIMS["C12"] = dict(
+    technique="Lean 4 theorems about the coverage-outcome mixing model (Atomica.Covout) + correspondence with Covout.get_outcome (mode A)",
+    text="Proof: for every number of programs, every coverage vector in [0,1]^n and each of the random, nested and additive interactions the combination weights are non-negative, "
+         "sum to 1 with the empty combination, and have marginals equal to the coverages (weights_nonneg/weights_total/marginal); convexity, zero-coverage, single-program and "
+         "best-is-farthest corollaries; monotonicity proved without explicit values (all interactions) and for random/nested with any monotone table; a kernel-checked witness shows "
+         "monotonicity fails for additive-above-100% with explicit values (known finding). Covout.get_outcome is compared with the model on generated tables (exhaustive grid for n<=3 in the thorough tier).",
+    note="numpy argsort tie order proved irrelevant (nested_loop_argsort); cases where float and exact ordering of |outcome-baseline| differ are counted ambiguous.",
+    design="8.C12")
+
 NA_DEFAULT = "not yet claimed: model, theorems and correspondence under construction (see DESIGN.md section 8)"
 NA = {}
 
